@@ -31,11 +31,11 @@ for _o in list(OBLIGATIONS[:3]):
     _s["bounds"] = "code file of 1 record with unconstrained header fields (granularity/segment/CPU 0..255, length 0..2, kinds long/short/entry/$82/absent), truncated at any length"
     _s["unwind"] = 10; _s["unwind_fn"] = {"harness": 10, "cf_load": 20, "cf_build": 8, "vp_vfprintf": 48, "OpenTarget": 260}; _s["unwindset"] = ["strlen.0:64"]; _s["timeout"] = 2400; _s["mem_gb"] = 24
     OBLIGATIONS.append(_s)
-for _fmt in ("eHexFormatIntel32", "eHexFormatMotoS"):
-    OBLIGATIONS.append(dict(name="p2hex_fields1_" + ("intel32" if "Intel" in _fmt else "moto"), src="tools.c", include=["p2hex.c", "toolutils.c"], units=["bpemu.c"], cuts={"bpemu.c": ["FileSize"]},
-        defs=["TOOL_P2HEX", "HEXFMT=" + _fmt, "STRINGSIZE=16", "STRUCTURED", "CF_R=1", "CF_L=2"],
+for _fmt, _ll, _cl in (("eHexFormatIntel32", 16, 2), ("eHexFormatMotoS", 16, 2), ("eHexFormatIntel32", 2, 4)):
+    OBLIGATIONS.append(dict(name="p2hex_fields1_" + ("intel32" if "Intel" in _fmt else "moto") + ("" if _ll == 16 else "_l%d" % _ll), src="tools.c", include=["p2hex.c", "toolutils.c"], units=["bpemu.c"], cuts={"bpemu.c": ["FileSize"]},
+        defs=["TOOL_P2HEX", "HEXFMT=" + _fmt, "STRINGSIZE=16", "STRUCTURED", "CF_R=1", "CF_L=%d" % _cl, "P2HEX_LINELEN=%d" % _ll],
         functions=["p2hex.c:ProcessFile", "toolutils.c:ReadRecordHeader", "toolutils.c:SkipRecord", "toolutils.c:FilterOK"],
-        bounds="code file of 1 record with unconstrained header fields (granularity/segment/CPU 0..255, length 0..2, kinds long/short/entry/$82/absent), truncated at any length; format fixed per obligation, window 0..15 in every segment",
+        bounds="code file of 1 record with unconstrained header fields (granularity/segment/CPU 0..255, length 0..%d, kinds long/short/entry/$82/absent), truncated at any length; format fixed per obligation, line length %d, window 0..15 in every segment" % (_cl, _ll),
         unwind=12, unwind_fn={"harness": 12, "cf_load": 20, "cf_build": 8, "vp_vfprintf": 22},
         unwindset=["strlen.0:64", "ProcessFile.4:4", "ProcessFile.0:6", "ProcessFile.1:5", "ProcessFile.2:5", "ProcessFile.3:6", "ProcessFile.5:6", "ProcessFile.6:6"], object_bits=13, timeout=2400, mem_gb=24,
         assumes=["stdio replaced by the memory-file model; printf monitor ignores text", "option state: defaults, explicit window 0..15", "AddChunk cut"]))
